@@ -58,6 +58,7 @@ def gen_case(rng, index, tier):
     if optclass == '-i':
         stdin = rng.choice(['y\n', 'y\n', 'Y\n', 'n\n', ''])
     c01.add_stale(L, rng, [arg], index, p=0.25)
+    c01.add_partial_trash_dirs(L, rng)
     case = L.desc()
     case['env'] = dict(case['env'], **env_extra)
     case['args'] = [arg]
